@@ -1,4 +1,11 @@
+pub mod c05;
+pub mod c06;
+pub mod c07;
 pub mod c08;
+pub mod c09;
+pub mod c15;
+pub mod c16;
+pub mod c18;
 pub mod kb;
 pub mod smoke;
 
@@ -6,7 +13,19 @@ use crate::util::{Params, Report};
 
 pub fn dispatch(prop: &str, p: &Params) -> Option<Report> {
     Some(match prop {
+        "C05" => c05::run(p),
+        "C06" => c06::run(p),
+        "C07" => c07::run(p),
         "C08" => c08::run(p),
+        "C15" => {
+            let mut rep = Report::new("C15");
+            c15::run_r0(p, &mut rep);
+            rep
+        }
+        "C16" => c16::run(p),
+        "C18" => c18::run(p),
+        "C09" => c09::run(p, "C09"),
+        "C10" => c09::run(p, "C10"),
         _ => return None,
     })
 }
